@@ -154,6 +154,8 @@ func (r *opRecorder) Logger() *log.Logger { return logger }
 
 // ---- generators -----------------------------------------------------------------------------
 
+var nsLeads = []string{"", "t", "tbl-", "b-", "-l", "\xff", "\x00", "l"}
+
 var keyParts = []string{"a", "ab", "abc", "b", "ba", "\x00", "\xff", "a\xff", "ut", "cl", "ab\x00", "abd"}
 
 func genKey(t *rapid.T, label string) string { return rapid.SampledFrom(keyParts).Draw(t, label) }
@@ -184,7 +186,10 @@ func TestC17_Lockstep(t *testing.T) {
 	openAll(t)
 	rapid.Check(t, func(t *rapid.T) {
 		caseNo++
-		ns := fmt.Sprintf("%08x/", caseNo) // per-case namespace: cases share the disk databases
+		// per-case namespace: cases share the disk databases. The namespace starts with a
+		// rotating lead so that keys do not all begin with a hex digit: the leads contain the
+		// table backend's own prefix and its bytes, and the extreme bytes.
+		ns := fmt.Sprintf("%s%08x/", nsLeads[int(caseNo)%len(nsLeads)], caseNo)
 		m := &model{db: map[string][]byte{}}
 		var batches [4][2]ethdb.Batch
 		col := &collector{}
